@@ -14,6 +14,8 @@ import (
 	"encoding/binary"
 	"fmt"
 	"net"
+	"sync"
+	"sync/atomic"
 	"syscall"
 	"time"
 
@@ -236,4 +238,106 @@ func runFrames(c *Ctx) {
 		}
 	}
 	c.Extra["frame_capture"] = "sendEthernet called on the loopback interface with chosen 6-byte (sometimes absent / 8-byte) source addresses; frames read back from an AF_PACKET socket (outgoing copies only)"
+}
+
+// runFramesConcurrent (C16): several layer-2 replies leave at the same moment (as they do when
+// datagrams of several address-less clients are handled concurrently).  Every frame read back must
+// be one client's frame as a whole - destination MAC, offered address and DHCP payload of the same
+// reply - and every reply must produce its frame.
+func runFramesConcurrent(c *Ctx, rounds int) {
+	lo, err := net.InterfaceByName("lo")
+	if err != nil {
+		c.Count("frame-conc:skipped-no-loopback")
+		return
+	}
+	sn, err := openSniffer(lo.Index)
+	if err != nil {
+		c.Count("frame-conc:skipped-no-packet-socket")
+		return
+	}
+	defer sn.close()
+	const G = 8
+	mac := []byte{2, 0xc1, 0x6c, 0, 0, 1}
+	for r := 0; r < rounds; r++ {
+		resps := make([]*dhcpv4.DHCPv4, G)
+		want := map[[4]byte]int{}
+		for g := 0; g < G; g++ {
+			s := req4spec{op: 1, mtype: []byte{1}, chaddr: []byte{2, 0xc1, 0x6c, byte(r), byte(r >> 8), byte(g)}, xid: 0xc1600000 | uint32(r&0xfff)<<8 | uint32(g)}
+			req, _ := dhcpv4.FromBytes(buildReq4(s))
+			resp, _ := dhcpv4.NewReplyFromRequest(req)
+			resp.UpdateOption(dhcpv4.OptMessageType(dhcpv4.MessageTypeOffer))
+			resp.YourIPAddr = net.IP{10, 16, byte(r), byte(g + 1)}
+			resp.ServerIPAddr = net.IP{10, 16, 0, 254}
+			resp.Options[12] = bytes.Repeat([]byte{byte('a' + g)}, 20+g*13) // replies of different lengths
+			resps[g] = resp
+			want[resp.TransactionID] = g
+		}
+		var start int32
+		var wg sync.WaitGroup
+		errs := make([]string, G)
+		for g := 0; g < G; g++ {
+			wg.Add(1)
+			go func(g int) {
+				defer wg.Done()
+				defer func() {
+					if x := recover(); x != nil {
+						errs[g] = fmt.Sprint("panic: ", x)
+					}
+				}()
+				for atomic.LoadInt32(&start) == 0 {
+				}
+				if err := server.VerifSendEthernet(net.Interface{Index: lo.Index, Name: "lo", HardwareAddr: mac}, resps[g]); err != nil {
+					errs[g] = err.Error()
+				}
+			}(g)
+		}
+		atomic.StoreInt32(&start, 1)
+		wg.Wait()
+		c.Evals++
+		in := map[string]interface{}{"round": r, "simultaneous layer-2 replies": G}
+		for g := 0; g < G; g++ {
+			if errs[g] != "" {
+				c.vio("C16", "concurrent-l2-send-fails", fmt.Sprintf("one of %d simultaneous layer-2 replies failed: %s", G, errs[g]), in)
+			}
+		}
+		seen := map[int]bool{}
+		deadline := time.Now().Add(400 * time.Millisecond)
+		for len(seen) < G && time.Now().Before(deadline) {
+			f := sn.next(50*time.Millisecond, func(b []byte) bool {
+				return len(b) >= 50 && b[12] == 8 && b[13] == 0 && b[46] == 0xc1 && b[47] >= 0x60 && b[47] <= 0x6f
+			})
+			if f == nil {
+				continue
+			}
+			var xid [4]byte
+			copy(xid[:], f[46:50])
+			g, ok := want[xid]
+			if !ok {
+				continue // a frame of an earlier round
+			}
+			seen[g] = true
+			exp := resps[g]
+			bad := ""
+			switch {
+			case !bytes.Equal(f[0:6], exp.ClientHWAddr):
+				bad = fmt.Sprintf("destination MAC %x, but the DHCP payload is the reply for %x", f[0:6], []byte(exp.ClientHWAddr))
+			case !bytes.Equal(f[30:34], exp.YourIPAddr.To4()):
+				bad = fmt.Sprintf("IP destination %v, but the DHCP payload offers %v", net.IP(f[30:34]), exp.YourIPAddr)
+			case int(binary.BigEndian.Uint16(f[16:])) != len(f)-14:
+				bad = "IPv4 total length does not match the frame"
+			case inetSum(f[14:34], 0) != 0xffff:
+				bad = "IPv4 header checksum does not verify"
+			default:
+				if back, err := dhcpv4.FromBytes(f[42:]); err != nil || !bytes.Equal(back.ToBytes(), exp.ToBytes()) {
+					bad = "the DHCP payload is not the reply that was handed to sendEthernet"
+				}
+			}
+			if bad != "" {
+				in["frame"] = fmt.Sprintf("%x", f)
+				c.vio("C16", "concurrent-l2-frame-mixed", fmt.Sprintf("%d layer-2 replies sent at the same moment: a frame left whose parts belong to different replies: %s", G, bad), in)
+			}
+		}
+	}
+	c.Count("frame-conc:rounds")
+	c.Dist["frame-conc:rounds"] = rounds
 }
